@@ -30,6 +30,7 @@ func clusterCheck(prop, tier string, plans []plan, need []string, assumptions []
 	counters := map[string]uint64{}
 	var samples []any
 	others := map[string]bool{}
+	reported := map[string]bool{}
 	for _, pl := range plans {
 		s := lookupSuite(pl.suite)
 		if s == nil {
@@ -74,6 +75,10 @@ func clusterCheck(prop, tier string, plans []plan, need []string, assumptions []
 				}
 				continue
 			}
+			if reported[f.V.Signature] {
+				continue
+			}
+			reported[f.V.Signature] = true
 			if !confirm(s, f) {
 				fmt.Printf("INFRA: violation %s did not reproduce identically on 5 re-executions\n", key)
 				return 2
